@@ -315,19 +315,71 @@ func (in *hbInterp) walkStmt(fr *hbFrame, st ast.Stmt, defers *[]string) {
 			}
 		}
 		if fl, ok := x.Call.Fun.(*ast.FuncLit); ok {
-			// a closure: does it use a local channel value, or does it read the field when it runs?
+			// a closure: its parameters get the argument values; a captured local keeps its value; does it read the
+			// field when it runs?
+			sub := &hbFrame{fd: &ast.FuncDecl{Name: ast.NewIdent("lit"), Recv: fr.fd.Recv, Type: fl.Type, Body: fl.Body}, recv: fr.recv, alias: map[string]string{}, depth: fr.depth + 1}
+			for k, v := range fr.alias {
+				sub.alias[k] = v
+			}
+			var params []string
+			if fl.Type.Params != nil {
+				for _, f := range fl.Type.Params.List {
+					for _, n := range f.Names {
+						params = append(params, n.Name)
+					}
+				}
+			}
+			for i, a := range args {
+				if i < len(params) {
+					if a != "" {
+						sub.alias[params[i]] = a
+					} else {
+						delete(sub.alias, params[i])
+					}
+				}
+			}
+			hasLoop := false
 			ast.Inspect(fl.Body, func(n ast.Node) bool {
-				if e, ok := n.(ast.Expr); ok {
-					if c := in.chanOf(fr, e); c != "" && passed == "none" {
-						if strings.HasPrefix(c, "field:") {
-							passed = "closure-reads-field"
-						} else {
-							passed = "arg:" + c
+				switch e := n.(type) {
+				case *ast.SelectStmt:
+					hasLoop = true
+				case *ast.SelectorExpr:
+					if c := in.chanOf(sub, e); strings.HasPrefix(c, "field:") {
+						passed = "closure-reads-field"
+					}
+				case *ast.Ident:
+					if c := in.chanOf(sub, e); c != "" && passed == "none" {
+						passed = "arg:" + c
+					}
+				case *ast.CallExpr:
+					if callee := in.callee(sub, e); callee != nil && in.spawned == nil {
+						var as []string
+						any := false
+						for _, a := range e.Args {
+							c := in.chanOf(sub, a)
+							as = append(as, c)
+							any = any || c != ""
+						}
+						if any {
+							in.spawned, in.spawnArgs = callee, as
 						}
 					}
 				}
 				return true
 			})
+			if in.spawned == nil && hasLoop {
+				// the loop is the closure itself: its channel is a parameter or a captured local
+				in.spawned = sub.fd
+				in.spawnArgs = nil
+				for _, pn := range params {
+					in.spawnArgs = append(in.spawnArgs, sub.alias[pn])
+				}
+				for k, v := range sub.alias {
+					if v != "" && !strings.HasPrefix(v, "field:") {
+						in.stopParam = k
+					}
+				}
+			}
 		} else if callee := in.callee(fr, x.Call); callee != nil {
 			in.spawned = callee
 			in.spawnArgs = args
@@ -430,6 +482,15 @@ func (in *hbInterp) call(fr *hbFrame, c *ast.CallExpr) {
 	case strings.HasPrefix(name, "atomic.Add") && len(c.Args) >= 1:
 		in.emit("atomic", exprString(hbStripAddr(c.Args[0])))
 		return
+	}
+	if sel, ok := c.Fun.(*ast.SelectorExpr); ok && sel.Sel.Name == "Add" && len(c.Args) == 1 {
+		// the method form on a field of a typed atomic
+		if f, ok := sel.X.(*ast.SelectorExpr); ok {
+			if id, ok := f.X.(*ast.Ident); ok && id.Name == fr.recv && in.counters[f.Sel.Name] {
+				in.emit("atomic", exprString(f))
+				return
+			}
+		}
 	}
 	if sel, ok := c.Fun.(*ast.SelectorExpr); ok && sel.Sel.Name == "SetData" {
 		for _, a := range c.Args {
@@ -655,6 +716,8 @@ func genHeartbeat(outDir string) (string, error) {
 						case *ast.SelectorExpr:
 							if s := exprString(t); s == "sync.Mutex" || s == "sync.RWMutex" {
 								mutexes[nm.Name] = true
+							} else if strings.HasPrefix(s, "atomic.") {
+								counters[nm.Name] = true // typed atomic: counter.Add(1)
 							}
 						case *ast.Ident:
 							if strings.HasPrefix(t.Name, "uint") || strings.HasPrefix(t.Name, "int") {
@@ -744,7 +807,7 @@ func genHeartbeat(outDir string) (string, error) {
 				}
 			}
 		}
-		stopParam := ""
+		stopParam := startIn.stopParam
 		for i, a := range startIn.spawnArgs {
 			if a != "" && i < len(params) {
 				stopParam = params[i]
@@ -775,7 +838,8 @@ func genHeartbeat(outDir string) (string, error) {
 						if elTerminates(&ast.BlockStmt{List: cc.Body}) {
 							loopExits = true
 						}
-					} else if s, ok := hbUnparen(u.X).(*ast.SelectorExpr); ok && s.Sel.Name == "C" {
+					} else {
+						// any other channel (the ticker's, however it is named or held)
 						// the refresh: interpreted as a trace (helpers inlined)
 						in := &hbInterp{funcs: funcs, typ: typ, chans: chans, mutexes: mutexes, counters: counters, held: map[string]int{}, epoch: map[string]int{}}
 						fr := &hbFrame{fd: g, recv: elRecvName(g), alias: map[string]string{}}
@@ -798,24 +862,67 @@ func genHeartbeat(outDir string) (string, error) {
 								}
 							}
 						}
+						if storeAt < 0 {
+							continue
+						}
 						counterAtomic = drawAt >= 0
 						refreshOnTick = drawAt >= 0 && storeAt > drawAt
-					}
-				}
-			case *ast.IfStmt:
-				// if d > K { d -= K' }
-				if be, ok := x.Cond.(*ast.BinaryExpr); ok && be.Op == token.GTR && len(x.Body.List) == 1 {
-					if as, ok := x.Body.List[0].(*ast.AssignStmt); ok && as.Tok == token.SUB_ASSIGN && len(as.Rhs) == 1 {
-						if t, ok := hbDurMs(be.Y, consts, 0); ok {
-							if c, ok := hbDurMs(as.Rhs[0], consts, 0); ok && exprString(be.X) == exprString(as.Lhs[0]) {
-								thresholdMs, cutMs = t, c
-							}
-						}
 					}
 				}
 			}
 			return true
 		})
+		// the period rule, in the goroutine's function or in a helper it calls (two levels):
+		//   if d > K { d -= K' }   |   if d > K { d = d - K' }   |   if d > K { return d - K' }
+		var findRule func(fd *ast.FuncDecl, depth int)
+		seen := map[*ast.FuncDecl]bool{}
+		findRule = func(fd *ast.FuncDecl, depth int) {
+			if fd == nil || fd.Body == nil || seen[fd] || depth > 2 {
+				return
+			}
+			seen[fd] = true
+			fr := &hbFrame{fd: fd, recv: elRecvName(fd)}
+			ast.Inspect(fd.Body, func(n ast.Node) bool {
+				switch x := n.(type) {
+				case *ast.CallExpr:
+					findRule(startIn.callee(fr, x), depth+1)
+				case *ast.IfStmt:
+					be, ok := x.Cond.(*ast.BinaryExpr)
+					if !ok || be.Op != token.GTR || len(x.Body.List) != 1 {
+						return true
+					}
+					t, ok := hbDurMs(be.Y, consts, 0)
+					if !ok {
+						return true
+					}
+					v := exprString(be.X)
+					var sub ast.Expr
+					switch b := x.Body.List[0].(type) {
+					case *ast.AssignStmt:
+						if len(b.Lhs) == 1 && len(b.Rhs) == 1 && exprString(b.Lhs[0]) == v {
+							if b.Tok == token.SUB_ASSIGN {
+								sub = b.Rhs[0]
+							} else if d, ok := hbUnparen(b.Rhs[0]).(*ast.BinaryExpr); ok && b.Tok == token.ASSIGN && d.Op == token.SUB && exprString(d.X) == v {
+								sub = d.Y
+							}
+						}
+					case *ast.ReturnStmt:
+						if len(b.Results) == 1 {
+							if d, ok := hbUnparen(b.Results[0]).(*ast.BinaryExpr); ok && d.Op == token.SUB && exprString(d.X) == v {
+								sub = d.Y
+							}
+						}
+					}
+					if sub != nil {
+						if c, ok := hbDurMs(sub, consts, 0); ok && thresholdMs == 0 {
+							thresholdMs, cutMs = t, c
+						}
+					}
+				}
+				return true
+			})
+		}
+		findRule(g, 0)
 	} else {
 		note("the go statement of StartHeartbeat does not call a function or method of the package")
 	}
